@@ -4,6 +4,9 @@
 #include <string.h>
 
 IWRB* iwrb_create(size_t usize, size_t len) {
+  if (len == 0) { // a ring without slots cannot take a unit: iwrb_put would write past the allocation
+    return 0;
+  }
   IWRB *rb = malloc(sizeof(*rb) + usize * len);
   if (!rb) {
     return 0;
@@ -23,7 +26,7 @@ void iwrb_destroy(IWRB **rbp) {
 }
 
 IWRB* iwrb_wrap(void *buf, size_t len, size_t usize) {
-  if (buf == 0 || len < sizeof(IWRB) + usize) {
+  if (buf == 0 || usize == 0 || len < sizeof(IWRB) + usize) {
     return 0;
   }
   IWRB *rb = buf;
